@@ -53,6 +53,9 @@ def shards(tier):
             out.append({"part": "single", "kind": kind, "tier": tier, "n": n, "first": None})
     # strings that differ only in a trailing NUL (fixed-width NumPy strings cannot tell them apart)
     out.append({"part": "single", "kind": "str", "tier": tier, "n": 3, "first": None, "alpha": [None, "a", "a\x00", "b"]})
+    # frames WITHOUT any non-numeric column (matrix-style shortcuts apply only to those), holding integers float64 cannot represent
+    for kind in ("f8", "i8"):
+        out.append({"part": "single", "kind": kind, "tier": tier, "n": 3, "first": None, "numeric": True, "alpha": V.alphabet(kind, "key")})
     for k1, k2 in PAIRS:
         out.append({"part": "pair", "k1": k1, "k2": k2, "n": n})
     # size ladder: periodic frames just above powers of two / ten (a chunked or cached implementation must not care)
@@ -73,6 +76,12 @@ def payload_cols(n):
     p = [(V.LONG_A + str(i)) if i % 2 else None for i in range(n)]
     q = [None if i % 3 == 0 else repr(i + 0.5) for i in range(n)]
     return [["id", "i8", list(range(n))], ["p", "str", p], ["q", "f8", q]]
+
+
+def numeric_payload(n):
+    return [["id", "i8", list(range(n))],
+            ["p", "i8", [9007199254740993 + 2 * ((i * 5) % 7) for i in range(n)]],   # 2**53 + 1, + 3, ...: odd, not floats
+            ["q", "f8", [None if i % 3 == 0 else repr(i + 0.5) for i in range(n)]]]
 
 
 def decode_value(kind, t):
@@ -394,11 +403,11 @@ def run_shard(shard, rec):
         for toks in it:
             toks = list(toks)
             m = len(toks)
-            cols = [["k", kind, toks]] + payload_cols(m)
+            cols = [["k", kind, toks]] + (numeric_payload(m) if shard.get("numeric") else payload_cols(m))
             # full index/column space on frames whose key is the alphabet prefix (one per length)
             full = toks == list(alpha[:m]) or m <= 2
             ops = ops_for(cols, full) + unique_ops(["k"])
-            if "alpha" in shard:
+            if "alpha" in shard and not shard.get("numeric"):
                 # a NUL-terminated string as the comparison SCALAR of filter(col=value) is trimmed by NumPy's own
                 # scalar conversion (np.asarray("a\x00") is 'a'): not explored; the column values are what matters here
                 ops = [o for o in ops if not str(o.get("value", "")).endswith("\x00")]
